@@ -42,7 +42,7 @@ def broken_variant(K, rng, vid):
     elif kind == "misaligned":
         v["id"], v["uid"] = fresh_id, ("Else-" + fresh_id) if puid is not None else (fresh_id + "x")
     elif kind == "bad-id":
-        bad = pick(rng, ["Z-%d" % vid, "", "z %d" % vid, "z_%d" % vid])
+        bad = pick(rng, ["Z-%d" % vid, "", "z %d" % vid, "z_%d" % vid, "Z\u00e9%d" % vid, "Z%d\u00b2" % vid, "\uff3a%d" % vid, "\u0417%d" % vid, "Z\u0663%d" % vid, "z.%d" % vid, "Z%d\n" % vid])
         v["id"], v["uid"] = bad, uid_for(bad)
     elif kind == "blank-name":
         v["id"], v["uid"], v["name"] = fresh_id, uid_for(fresh_id), ""
